@@ -302,7 +302,7 @@ def parse_conv(ans):
     if not ans.startswith('conv '):
         return {'kind': 'bad', 'what': ans[:200]}
     head, *_ = ans.split('|V|', 1)
-    m = re.match(r'conv N=(\d+) M=(\d+) shortcut=(\d)(?: infragment=(\d))?', head.strip())
+    m = re.match(r'conv N=(\d+) M=(\d+) shortcut=(\d)(?: infragment=(\d))?(?: checks=(\d))?', head.strip())
     if not m:
         return {'kind': 'bad', 'what': ans[:200]}
     rest = ans[len(head):]
@@ -311,7 +311,7 @@ def parse_conv(ans):
         i = rest.index(key) + len(key)
         j = rest.index(nxt) if nxt else len(rest)
         sec[key] = rest[i:j].strip()
-    return {'kind': 'conv', 'N': int(m.group(1)), 'M': int(m.group(2)), 'shortcut': m.group(3) == '1', 'infragment': m.group(4) != '0',
+    return {'kind': 'conv', 'N': int(m.group(1)), 'M': int(m.group(2)), 'shortcut': m.group(3) == '1', 'infragment': m.group(4) != '0' and m.group(5) != '0',
             'V': [v for v in sec['|V|'].split(';') if v], 'D': [canon_def(d) for d in sec['|D|'].split('|') if d],
             'R': [r for r in sec['|R|'].split('|') if r], 'O': sec['|O|'],
             'C': sorted(canon_row(c.strip()) for c in sec['|C|'].split(' ; ') if c.strip())}
